@@ -1171,6 +1171,55 @@ def r_str_membership(ctx, rid):
     membership_in_string(ctx, rid)
 
 
+
+def r9_indexed_assignment_defines_its_first_argument(ctx, rid):
+    """ComputeGraph._sort_var_updates orders the algebraic equations so that each comes after the equations defining what it
+    reads.  For an lhs-indexing operation `index(var, idx) = ...` the defined variable is `var`, the first argument of the
+    indexing call.  The graph predecessors / _get_inputs list of that operation is ordered by the *names* of var and idx, so
+    picking a fixed position of it ([0] / [-1]) registers the index constant as the defined variable for some names: readers of
+    `var` are then emitted before the edge input is written."""
+    import ast as _ast
+    f = ctx.repo.get_func("pyrates/backend/computegraph.py", "ComputeGraph._sort_var_updates")
+    appends = [c for c in walk_shallow(f.node) if isinstance(c, _ast.Call) and call_name(c) == "append" and isinstance(c.func, _ast.Attribute)
+               and isinstance(c.func.value, _ast.Name) and c.func.value.id == "node_names"]
+    if len(appends) != 2:
+        raise AnalysisError(f"{rid}: expected two registrations into node_names in _sort_var_updates, found {len(appends)}")
+    # the registration on the branch where the lhs node is an operation (not a ComputeVar)
+    op_branch = [c for c in appends if not (isinstance(c.args[0], _ast.Name) and c.args[0].id == "node")]
+    if len(op_branch) != 1:
+        raise AnalysisError(f"{rid}: the registration for lhs-indexing operations was not recognised")
+    c = op_branch[0]
+
+    def expand(e, depth=0):
+        out = [e]
+        if depth < 4:
+            for n in _ast.walk(e):
+                if isinstance(n, _ast.Name) and isinstance(n.ctx, _ast.Load):
+                    for d in ctx.rd(f).defs_reaching(n):
+                        v = assigned_value(d, n.id)
+                        if v is not None:
+                            out += expand(v, depth + 1)
+        return out
+    exprs = expand(c.args[0])
+    text = " ; ".join(_ast.unparse(x) for x in exprs)
+    structural = any(isinstance(n, _ast.Subscript) and isinstance(n.value, _ast.Attribute) and n.value.attr == "args"
+                     and isinstance(n.value.value, _ast.Attribute) and n.value.value.attr == "expr"
+                     and isinstance(n.slice, _ast.Constant) and n.slice.value == 0 for x in exprs for n in _ast.walk(x))
+    positional = [n for x in exprs for n in _ast.walk(x) if isinstance(n, _ast.Subscript) and isinstance(n.slice, (_ast.Constant, _ast.UnaryOp))
+                  and any(isinstance(k, _ast.Call) and call_name(k) in ("_get_inputs", "predecessors") for k in _ast.walk(n.value))]
+    facts = {"registered": text[:300]}
+    if structural:
+        ctx.ok(rid, f, c, "the variable defined by an lhs-indexing operation is read from the first argument of the indexing call", facts,
+               label="defined variable of an indexed assignment")
+    elif positional:
+        ctx.violation(rid, f, c, f"the variable defined by an lhs-indexing operation is taken from a fixed position of its input list "
+                                 f"(`{_ast.unparse(positional[0])}`), whose order depends on the variable names: for some names the index constant is "
+                                 f"registered instead and readers of the assigned variable are emitted before it is written", facts,
+                      label="defined variable of an indexed assignment")
+    else:
+        raise AnalysisError(f"{rid}: unrecognised registration `{_ast.unparse(c)}`")
+
+
 RULES = [
     ("C01-R1", r1_loop_variable_discipline, 40),
     ("C01-R2", r2_accumulate_on_scatter, 1),
@@ -1179,6 +1228,7 @@ RULES = [
     ("C01-R6", r6_names_and_values_from_one_iteration, 6),
     ("C01-R7", r7_source_registration_accumulates, 3),
     ("C01-R8", r_str_membership, 1),
+    ("C01-R9", r9_indexed_assignment_defines_its_first_argument, 1),
 ]
 
 # C01-R5 (state layout: one distinct extent per state variable, same layout in to_func / get_jacobian_func /
